@@ -43,7 +43,7 @@ def run_whip(argv):
 def run_scenario(chk, sc, cfgseed, dtype, axes, flavour="sched", workers=None):
     rng = random.Random(cfgseed)
     cfg_ = gamma.Config.draw(rng, ndims=3, payload="tame")
-    lat = lattice.Lattice(sc["mesh"], sc["n1"], sc["n2"], axes=axes, ext0=3, ext_cut=True)
+    lat = lattice.Lattice(sc["mesh"], sc["n1"], sc["n2"], axes=axes, ext0=[3, 4, 2, 5][cfgseed % 4], ext_cut=(cfgseed // 4) % 3 != 0)
     nfiles = sc["nfiles"]
     # boxes dealt over the files round-robin, from the first file or from the last one: with an uneven deal the files with
     # the most boxes (the largest, read first) are then the first-named or the last-named ones
@@ -110,7 +110,7 @@ def run(chk, replay):
     chk.rule = ("behaviours of Whip.tla emitted by TLC (mesh x files per level x limit x arrival order), replayed through whip's "
                 "main() with float64/float32/float16/int16/int32/int64 (integer and half grids on moderate finite values) and the lattice axes assigned to every permutation of (x, y, z); signature = (levels, "
                 "limit, per-level (boxes, files), arrival class, dtype, axes); trivial = one level, one file")
-    chk.assumptions = ["third axis extruded with 3 level-0 cells and cut into two slabs"]
+    chk.assumptions = ["third axis extruded with 2-5 level-0 cells, cut into two slabs two times out of three"]
     if replay:
         s = replay["scenario"]
         v = run_scenario(chk, s["sc"], s["cfgseed"], s["dtype"], tuple(s["axes"]))
